@@ -154,6 +154,44 @@ def source_oracle(chk, n):
     return stats
 
 
+GROUP_PRE = ("def idt(t: (Int, Int)) -> (Int, Int) => t\ndef fst(t: (Int, Int)) -> Int => 1\ndef two(p: Int, q: Int) -> Int => p * 10 + q\n"
+             "class Bx(def t: (Int, Int))\n    def put(self, u: (Int, Int)) -> (Int, Int) => u\n    def put2(self, p: Int, q: Int) -> Int => p - q\n"
+             "def a := 1\ndef b := 2\ndef bx := Bx((7, 8))\n")
+# explicit parentheses that are NOT about operator precedence: a tuple as the only argument, nested tuples, a tuple as an
+# element, a parenthesised single expression (source line, what it prints)
+GROUPING = [
+    ("print((a, b))", "(1, 2)"), ("print(a, b)", "1 2"), ("print(idt((a, b)))", "(1, 2)"), ("print(fst((a, b)))", "1"), ("print(two(a, b))", "12"),
+    ("print(two((a), (b)))", "12"), ("print(bx.put((5, 3)))", "(5, 3)"), ("print(bx.put2(5, 3))", "2"), ("print(Bx((5, 3)).t)", "(5, 3)"),
+    ("print(((a, b), 3))", "((1, 2), 3)"), ("print((a, (b, 3)))", "(1, (2, 3))"), ("print(((a, b)))", "(1, 2)"), ("print((a))", "1"), ("print(((a)))", "1"),
+    ("print([(a, b)])", "[(1, 2)]"), ("print([(a, b), (b, a)])", "[(1, 2), (2, 1)]"), ("print({(a, b)})", "{(1, 2)}"), ("print(idt(((a, b))))", "(1, 2)"),
+    ("print(idt((a + 1, b * 2)))", "(2, 4)"), ("print([a, b])", "[1, 2]"),
+    ("print([[a, b]])", "[[1, 2]]"), ("print(((a, b), (b, a)))", "((1, 2), (2, 1))"), ("print(idt(idt((a, b))))", "(1, 2)"),
+    ("def tq := (a, b)\nprint(idt(tq))", "(1, 2)"), ("print((a, b), 3)", "(1, 2) 3"), ("print(3, (a, b))", "3 (1, 2)"), ("print(two(fst((a, b)), b))", "12"),
+]
+
+
+def grouping_oracle(chk):
+    import sweep
+    progs = [GROUP_PRE + src + "\n" for src, _ in GROUPING]
+    res = sweep.transpile(chk, progs, annotate_both=False)
+    runs = sweep.run_python([r[0][1] if r[0][0] == "ok" else "" for r in res])
+    n = 0
+    for (src, want), r, run_ in zip(GROUPING, res, runs):
+        why = None
+        if r[0][0] != "ok":
+            why = "source %r is rejected: %s" % (src, (r[0][1][0].splitlines()[0] if r[0][0] == "err" and r[0][1] else r[0][0]))
+        elif run_[0] != [want] or run_[1] != "ok":
+            why = "source %r prints %s in the emitted Python, it denotes %r" % (src, run_, want)
+        n += 1
+        if why:
+            f = chk.known(src)
+            if f:
+                chk.report_known(f, why)
+            elif len(chk.violations) < 5:
+                chk.violation("input", why, case={"kind": "source", "minimal": src, "full": src, "python": r[0][1][-300:] if r[0][0] == "ok" else ""}, expected=want, actual=str(run_))
+    return n
+
+
 def run(chk):
     thorough = chk.tier == "thorough"
     ok = chk.build_harness()
@@ -233,6 +271,7 @@ def run(chk):
                               expected=repr(want)[:1500], actual=repr(got)[:1500])
     dist["builders"] = n_comp
     chk.cov["oracle_source"] = source_oracle(chk, 3000 if thorough else 500)
+    chk.cov["oracle_grouping"] = {"programs": grouping_oracle(chk), "spec": "explicit parentheses outside operator precedence (a tuple as the only argument, nested tuples, tuple elements, parenthesised single expressions) keep their meaning: the emitted Python prints what the source denotes"}
     for sx, a, b in dis[:5]:
         chk.broken("correspondence", "Print model and implementation disagree on %s:\n impl : %r\n model: %r" % (sx[:400], a, b))
     # grammar model vs CPython on unparenthesised prints (texts the real printer never emits)
